@@ -331,3 +331,16 @@ def run_behaviours(jobs, procs=None):
         return [_work_beh(j) for j in jobs]
     pool = get_pool(procs)
     return pool.map(_work_beh, jobs, chunksize=max(1, min(10, len(jobs) // (procs * 4) or 1)))
+
+
+def pmap(fn, jobs, procs=None, timeout=120):
+    """ordered parallel map with a per-result timeout (a stuck job becomes a machinery error, not a hang)"""
+    procs = procs or min(16, os.cpu_count() or 4)
+    if len(jobs) < 3:
+        return [fn(j) for j in jobs]
+    pool = get_pool(procs)
+    it = pool.imap(fn, jobs, chunksize=1)
+    out = []
+    for _ in jobs:
+        out.append(it.next(timeout=timeout))
+    return out
